@@ -36,6 +36,22 @@ pub struct Hooks {
 
 static HOOKS: OnceLock<Hooks> = OnceLock::new();
 
+static PHYSICAL_CPUS: std::sync::atomic::AtomicUsize = std::sync::atomic::AtomicUsize::new(0);
+
+/// Fixes the number of physical CPUs seen by `PoolConfig::default()` so that
+/// the simulator neither depends on the host nor reads `/proc` for every pool.
+pub fn set_physical_cpus(n: usize) {
+    PHYSICAL_CPUS.store(n, std::sync::atomic::Ordering::Relaxed);
+}
+
+/// Returns the value set by [`set_physical_cpus`], if any.
+pub fn physical_cpus() -> Option<usize> {
+    match PHYSICAL_CPUS.load(std::sync::atomic::Ordering::Relaxed) {
+        0 => None,
+        n => Some(n),
+    }
+}
+
 /// Installs the hooks. Returns `false` if hooks were already installed.
 pub fn install(hooks: Hooks) -> bool {
     HOOKS.set(hooks).is_ok()
